@@ -2,7 +2,7 @@
   `dep_protocol_exhaustive`: every reachable state of the one-dependency protocol
   (`Babylon.Anyflow.Dep`, all interleavings of the atomic sub-steps of A, C b, T, every subset of
   actors, spurious weak-CAS failures) satisfies `good`.  The per-dependency state space is finite,
-  so this is a certified closed set: the table `R` (283 states) contains the initial states, is
+  so this is a certified closed set: the table `R` (694 states) contains the initial states, is
   closed under `succs` and all its members are `good` — both facts are evaluated by the kernel.
 -/
 import Babylon.Anyflow.DepTable
@@ -132,7 +132,7 @@ theorem runSched_reachable {s s' : State} {xs : List Actor} (h0 : Reachable (· 
       exact ih (.tail h0 (.act s x false s1 l hst)) h
 
 /-- T, then C with a false condition (two decrements), then A: counter 0 → -1 → -2 → -3 → -1 -/
-def witnessSched : List Actor := [.T, .T, .T, .C, .C, .C, .C, .A, .A, .A]
+def witnessSched : List Actor := [.T, .T, .T, .C, .C, .C, .C, .C, .C, .A, .A, .A, .A]
 def witness : State :=
   match runSched (State.init ⟨true, false⟩) witnessSched with
   | some s => s
@@ -141,7 +141,7 @@ theorem witness_reachable : Reachable (· ∈ inits) Step witness :=
   runSched_reachable (s := State.init ⟨true, false⟩) (xs := witnessSched) (.base (by decide)) (by decide)
 
 /-- A, then C with a true condition (activates the target), then T (tells the source) -/
-def witness2Sched : List Actor := [.A, .A, .C, .C, .C, .C, .T, .T, .T, .T, .T]
+def witness2Sched : List Actor := [.A, .A, .A, .C, .C, .C, .C, .C, .T, .T, .T, .T, .T, .T]
 def witness2 : State :=
   match runSched (State.init ⟨true, true⟩) witness2Sched with
   | some s => s
